@@ -68,7 +68,8 @@ def gen(rng, tier):
     keys = ["absent", "valid", "dup"]
     # the last two: one list on two header lines (RFC 7230 3.2.2)
     conns = [b"Upgrade", b"upgrade", b"keep-alive, Upgrade", b"UPGRADE", b"Upgrade\r\nConnection: keep-alive", b"keep-alive\r\nConnection: upgrade"]
-    upgs = [b"websocket", b"WebSocket", b"WEBSOCKET"]
+    # (Upgrade is a list as well: the client may offer other protocols beside websocket, on one line or on two)
+    upgs = [b"websocket", b"WebSocket", b"WEBSOCKET", b"websocket, other/1", b"other/1\r\nUpgrade: websocket"]
     httpvs = ["1.1", "1.1", "1.0", "2"]
     protos = [None, [b"chat"], [b"chat", b"superchat"]]
     exts = [None, b"permessage-deflate", b"x-unknown-ext"]
